@@ -160,7 +160,7 @@ func setString(s map[int]bool) string {
 }
 
 func runC11(r *R) {
-	r.Explain = "Structural necessary conditions of C11 in sdk/go/keepclient: (R1) putReplicas counts replicas and adopts a locator only from a status with code 200, using that status' replicasStored/response; (R2) uploadToKeepServer reports err==nil only for HTTP 200 and reports the response's own status code; " +
+	r.Explain = "Structural necessary conditions of C11 in sdk/go/keepclient: (R1) putReplicas counts replicas and adopts a locator only from a status with code 200, using that status' replicasStored/response; (R2) uploadToKeepServer reports err==nil exactly for HTTP 200 (a status carrying an error never carries 200 — found F8) and otherwise the response's own status code; " +
 		"(R3) the only nil-error return of putReplicas is after the retry loop, and the insufficient-replicas return carries the count done so far; (R4) the retry decision is a pure function of the status code and denotes exactly {0,408,429,500–599}\\{503} for writes and {408,429,500–599} (+ transport errors) for reads (finite-domain interpretation of the branch conditions over 0–599); " +
 		"(R5) uploads go to WritableLocalRoots in rendezvous order and read-only services never enter that map; (R6) PutB hashes the buffer it sends, PutHR verifies the stream against the hash and rejects oversize blocks. That replicasTodo<=0 numerically implies enough replicas, and the liveness clause (succeeds whenever enough services accept), are not decided."
 	r.NotDec = []string{"numeric sufficiency of the replica count", "liveness: success whenever enough services accept", "concurrency of abandoned uploads"}
